@@ -1,4 +1,5 @@
-\* thorough, eval part: a class body of <= 3 members over {public, static, @Nullable, @Override}, returns <= 2 over {null, other, tern}
+\* thorough, eval part: a class body of <= 2 members (methods alpha/beta incl. overloads, constructors) over {public, static, @Nullable, @Override}
+\* in every order of <= 2 tokens, returns <= 2 over {null, other, tern} (about 200 000 class bodies)
 SPECIFICATION Spec
 CONSTANTS
   Part = "eval"
@@ -10,7 +11,7 @@ CONSTANTS
   MaxPre = 2
   RetKinds = {"null", "other", "tern"}
   MaxRets = 2
-  MaxMembers = 3
+  MaxMembers = 2
   WithCtor = TRUE
   MaxPieces = 1
   MaxNames = 1
